@@ -1,18 +1,31 @@
 --------------------------------- MODULE Coil ---------------------------------
 (* Reference model of mpf/devices/driver.py as the statement of C08 wants it: every entry point  *)
-(* (pulse / enable / timed_enable / disable, also through control events) either refuses with an  *)
-(* error or emits platform commands inside the coil's configured envelope; software-timed pulses *)
-(* and max_hold_duration switch the coil off again.  Powers are integer percent, times are ms.    *)
+(* (pulse / enable / timed_enable / disable, also through control events, and the hardware rules  *)
+(* built by the platform controller) either refuses with an error or emits platform commands      *)
+(* inside the coil's configured envelope; software-timed pulses and max_hold_duration switch the  *)
+(* coil off again.  Powers are integer percent, times are ms.                                     *)
+(*  - the defaults default_pulse_ms / default_timed_enable_ms may come from a placeholder         *)
+(*    (machine variable, operator setting) and change while the machine runs (SetDef): cfg is a   *)
+(*    variable and every request is judged against the default of the moment;                     *)
+(*  - a request may carry max_wait_ms: the power supply, shared with another coil (OtherPulse),   *)
+(*    then postpones it while it is busy (pend); the postponed command is emitted when its time   *)
+(*    comes (Adv) and is bound by the same watchdogs as an immediate one.                         *)
 EXTENDS Integers, Sequences, FiniteSets, TLC
-CONSTANTS Configs,   \* records [id, defPulseMs, maxPulseMs, defPP, maxPP, defHP, maxHP, allowEnable, maxHoldDur, defTE, pwte]
+CONSTANTS Configs,   \* records [id, defPulseMs, maxPulseMs, defPP, maxPP, defHP, maxHP, allowEnable, maxHoldDur, defTE, pwte, dynP, dynT]
           NONE,      \* marks an omitted argument
-          PlatMaxPulse, MsVals, PowVals, TeVals, Steps, MaxTime, MaxOps
-VARIABLES cfg, now, on, swOffAt, holdOffAt, out, err, nops, act
+          PlatMaxPulse, MsVals, PowVals, TeVals, Steps, MaxTime, MaxOps,
+          MwVals,    \* max_wait_ms values of requests (NONE: the request does not wait for the power supply)
+          OtherMs,   \* pulse lengths of the other coil on the same power supply
+          DefVals,   \* values the placeholder behind a default takes at runtime
+          Rel,       \* release_wait_ms of the power supply
+          MaxPend    \* bound on postponed requests
+VARIABLES cfg, now, on, swOffAt, holdOffAt, busy, pend, out, err, nops, act
 \* on: "off" | "hold" | "swpulse";  out: platform commands emitted by the last step, each
 \* <<kind, pulse_ms, pulse_power, hold_power, duration>>;  err: the last call was refused
-vars == <<cfg, now, on, swOffAt, holdOffAt, out, err, nops, act>>
-Init == /\ cfg \in Configs /\ now = 1 /\ on = "off" /\ swOffAt = 0 /\ holdOffAt = 0 /\ out = <<>> /\ err = FALSE
-        /\ nops = 0 /\ act = [op |-> "init"]
+\* busy: the power supply is busy until then (0: idle);  pend: postponed requests [at, k, ms, pp, hp], oldest first
+vars == <<cfg, now, on, swOffAt, holdOffAt, busy, pend, out, err, nops, act>>
+Init == /\ cfg \in Configs /\ now = 1 /\ on = "off" /\ swOffAt = 0 /\ holdOffAt = 0 /\ busy = 0 /\ pend = <<>>
+        /\ out = <<>> /\ err = FALSE /\ nops = 0 /\ act = [op |-> "init"]
 PMs(x) == IF x = NONE THEN cfg.defPulseMs ELSE x
 PP(x) == IF x = NONE THEN (IF cfg.defPP # 0 THEN cfg.defPP ELSE 100) ELSE x
 HP(x) == IF x # NONE THEN x ELSE IF cfg.defHP # 0 THEN cfg.defHP ELSE IF cfg.maxHP # 0 THEN cfg.maxHP
@@ -21,57 +34,106 @@ TE(x) == IF x = NONE THEN cfg.defTE ELSE x
 PPLimit == IF cfg.maxPP # 0 THEN cfg.maxPP ELSE cfg.defPP
 HPLimit == IF cfg.maxHP # 0 THEN cfg.maxHP ELSE IF cfg.allowEnable THEN 100 ELSE cfg.defHP
 \* "a request above a limit or with a negative duration or power is refused"
-PulseOK(ms, pp) == ms >= 0 /\ (cfg.maxPulseMs = 0 \/ ms <= cfg.maxPulseMs) /\ pp >= 0 /\ pp <= PPLimit
+MsOK(ms) == ms >= 0 /\ (cfg.maxPulseMs = 0 \/ ms <= cfg.maxPulseMs)
+PowOK(pp) == pp >= 0 /\ pp <= PPLimit
+PulseOK(ms, pp) == MsOK(ms) /\ PowOK(pp)
 HoldOK(hp) == hp >= 0 /\ hp <= HPLimit
 TeOK(te) == te >= 0 /\ (cfg.maxHoldDur = 0 \/ te <= cfg.maxHoldDur)
-NothingDue == (swOffAt # 0 => swOffAt > now) /\ (holdOffAt # 0 => holdOffAt > now)
-Refuse(a) == /\ err' = TRUE /\ out' = <<>> /\ act' = a /\ UNCHANGED <<on, swOffAt, holdOffAt>>
-Call == NothingDue /\ nops < MaxOps /\ nops' = nops + 1 /\ UNCHANGED <<cfg, now>>
-TimedEnableCmd(ms, pp, hp, te, a) ==
+Max(a, b) == IF a > b THEN a ELSE b
+\* ---- the power supply (mpf/devices/power_supply_unit.py) ----------------------------------------------------
+\* when no request ever waits (MwVals = {NONE}) the busy time influences nothing and is not tracked
+TrackPsu == MwVals # {NONE}
+PsuInstant(b, t, ms) == IF ~TrackPsu THEN 0 ELSE IF b # 0 THEN Max(b, t + ms + Rel) ELSE t + ms + Rel
+\* <<wait, busy'>> for a request of length ms made at t that may be postponed by at most mw
+Psu(b, t, ms, mw) == IF mw = NONE THEN <<0, PsuInstant(b, t, ms)>>
+                     ELSE LET b1 == IF b # 0 /\ b < t THEN 0 ELSE b IN
+                          IF b1 = 0 \/ mw = 0 \/ b1 > t + mw THEN <<0, PsuInstant(b1, t, ms)>>
+                          ELSE <<b1 - t, b1 + ms + Rel>>
+\* ---- what the coil does, as functions on a record of its state (used at call time and when a timer fires) ----
+Cur == [on |-> on, sw |-> swOffAt, ho |-> holdOffAt, busy |-> busy, pend |-> pend, out |-> <<>>, err |-> FALSE]
+DIS == <<"disable", 0, 0, 0, 0>>
+Emit(s, c) == [s EXCEPT !.out = Append(@, c)]
+Refused(s) == [s EXCEPT !.err = TRUE]
+DoDisable(s) == [Emit(s, DIS) EXCEPT !.on = "off", !.ho = 0]
+\* the coil is switched on to be held: the max_hold_duration watchdog runs from here unless it runs already
+DoEnableNow(s, t, ms, pp, hp) ==
+    [Emit(s, <<"enable", ms, pp, hp, 0>>) EXCEPT !.on = "hold",
+                                                 !.ho = IF cfg.maxHoldDur # 0 /\ s.ho = 0 THEN t + cfg.maxHoldDur ELSE s.ho]
+\* the platform switches it off by itself; the power supply is only told (the command is never postponed)
+DoTimedEnable(s, t, ms, pp, hp, te, mw) ==
     IF PulseOK(ms, pp) /\ HoldOK(hp) /\ TeOK(te)
-    THEN /\ err' = FALSE /\ out' = <<<<"timed_enable", ms, pp, hp, te>>>> /\ act' = a
-         /\ UNCHANGED <<on, swOffAt, holdOffAt>>         \* the platform switches it off by itself
-    ELSE Refuse(a)
-Pulse(msA, ppA) ==
-    /\ Call
-    /\ LET ms == PMs(msA)  pp == PP(ppA)  a == [op |-> "pulse", ms |-> msA, pp |-> ppA] IN
-       IF ~PulseOK(ms, pp) THEN Refuse(a)
-       ELSE IF cfg.pwte THEN TimedEnableCmd(ms, pp, HP(NONE), TE(NONE), a)
-       ELSE IF ms > 0 /\ ms <= PlatMaxPulse
-            THEN /\ err' = FALSE /\ out' = <<<<"pulse", ms, pp, 0, 0>>>> /\ act' = a /\ UNCHANGED <<on, swOffAt, holdOffAt>>
-            \* longer than the platform can time: switched on now, switched off by a software timer
-            ELSE IF ms = 0      \* degenerate: switched on and off again in the same loop iteration
-            THEN /\ err' = FALSE /\ out' = <<<<"enable", 0, pp, pp, 0>>, <<"disable", 0, 0, 0, 0>>>> /\ act' = a
-                 /\ on' = "off" /\ holdOffAt' = 0 /\ UNCHANGED swOffAt
-            ELSE /\ err' = FALSE /\ out' = <<<<"enable", 0, pp, pp, 0>>>> /\ act' = a
-                 /\ on' = "swpulse" /\ swOffAt' = now + ms /\ UNCHANGED holdOffAt
-Enable(msA, ppA, hpA) ==
-    /\ Call
-    /\ LET ms == PMs(msA)  pp == PP(ppA)  hp == HP(hpA)  a == [op |-> "enable", ms |-> msA, pp |-> ppA, hp |-> hpA] IN
-       IF ~PulseOK(ms, pp) \/ ~HoldOK(hp) \/ hp = 0 THEN Refuse(a)
-       ELSE /\ err' = FALSE /\ out' = <<<<"enable", ms, pp, hp, 0>>>> /\ act' = a
-            /\ on' = "hold" /\ UNCHANGED swOffAt
-            /\ holdOffAt' = IF cfg.maxHoldDur # 0 /\ holdOffAt = 0 THEN now + cfg.maxHoldDur ELSE holdOffAt
-TimedEnable(teA, hpA, msA, ppA) ==
-    /\ Call
-    /\ TimedEnableCmd(PMs(msA), PP(ppA), HP(hpA), TE(teA), [op |-> "timed_enable", te |-> teA, hp |-> hpA, ms |-> msA, pp |-> ppA])
-Disable == /\ Call /\ err' = FALSE /\ out' = <<<<"disable", 0, 0, 0, 0>>>> /\ on' = "off" /\ holdOffAt' = 0
-           /\ UNCHANGED swOffAt /\ act' = [op |-> "disable"]
-\* time passes (to the next timer at most); the software pulse timer / the hold watchdog switch the coil off
-Adv(d) == /\ now < MaxTime
-          /\ LET nd == {x \in {swOffAt, holdOffAt} : x # 0}
-                 t  == IF nd # {} /\ (CHOOSE m \in nd : \A y \in nd : m <= y) <= now + d
-                       THEN (CHOOSE m \in nd : \A y \in nd : m <= y) ELSE now + d
-                 sw == swOffAt = t   ho == holdOffAt = t
-             IN /\ now' = t
-                /\ out' = (IF sw THEN <<<<"disable", 0, 0, 0, 0>>>> ELSE <<>>) \o (IF ho THEN <<<<"disable", 0, 0, 0, 0>>>> ELSE <<>>)
-                /\ on' = IF sw \/ ho THEN "off" ELSE on
-                /\ swOffAt' = IF sw THEN 0 ELSE swOffAt
-                /\ holdOffAt' = IF sw \/ ho THEN 0 ELSE holdOffAt
-          /\ err' = FALSE /\ act' = [op |-> "adv", d |-> d] /\ UNCHANGED <<cfg, nops>>
-Next == \/ \E ms \in MsVals, pp \in PowVals : Pulse(ms, pp)
-        \/ \E ms \in MsVals, pp \in PowVals, hp \in PowVals : Enable(ms, pp, hp)
-        \/ \E te \in TeVals, hp \in PowVals, ms \in MsVals, pp \in PowVals : TimedEnable(te, hp, ms, pp)
+    THEN [Emit(s, <<"timed_enable", ms, pp, hp, te>>) EXCEPT !.busy = Psu(s.busy, t, ms + te, mw)[2]]
+    ELSE Refused(s)
+DoPulseNow(s, t, ms, pp) ==
+    IF cfg.pwte THEN DoTimedEnable(s, t, ms, pp, HP(NONE), TE(NONE), NONE)
+    ELSE IF ms > 0 /\ ms <= PlatMaxPulse THEN Emit(s, <<"pulse", ms, pp, 0, 0>>)
+    \* longer than the platform can time: switched on now, switched off by a software timer
+    ELSE IF ms = 0      \* degenerate: switched on and off again in the same loop iteration
+    THEN [Emit(Emit(s, <<"enable", 0, pp, pp, 0>>), DIS) EXCEPT !.on = "off", !.ho = 0, !.sw = 0]
+    ELSE [Emit(s, <<"enable", 0, pp, pp, 0>>) EXCEPT !.on = "swpulse", !.sw = t + ms]
+DoPulse(s, t, msA, ppA, mw) ==
+    LET ms == PMs(msA)  pp == PP(ppA) IN
+    IF ~PulseOK(ms, pp) THEN Refused(s)
+    ELSE LET w == Psu(s.busy, t, ms, mw)  s1 == [s EXCEPT !.busy = w[2]] IN
+         IF w[1] > 0 THEN [s1 EXCEPT !.pend = Append(@, [at |-> t + w[1], k |-> "pulse", ms |-> ms, pp |-> pp, hp |-> 0])]
+         ELSE DoPulseNow(s1, t, ms, pp)
+DoEnable(s, t, msA, ppA, hpA, mw) ==
+    LET ms == PMs(msA)  pp == PP(ppA)  hp == HP(hpA) IN
+    IF ~MsOK(ms) THEN Refused(s)
+    ELSE LET w == Psu(s.busy, t, ms, mw)  s1 == [s EXCEPT !.busy = w[2]] IN     \* the power supply is told first
+         IF ~PowOK(pp) \/ ~HoldOK(hp) \/ hp = 0 THEN Refused(s1)
+         ELSE IF w[1] > 0 THEN [s1 EXCEPT !.pend = Append(@, [at |-> t + w[1], k |-> "enable", ms |-> ms, pp |-> pp, hp |-> hp])]
+         ELSE DoEnableNow(s1, t, ms, pp, hp)
+\* timers: the software pulse timer, the hold watchdog and the postponed requests; all that are due fire in time order,
+\* timers due at the same instant in any order (the statement is silent about it): the set of possible outcomes
+Timers(s) == ({s.sw, s.ho} \ {0}) \cup {s.pend[i].at : i \in DOMAIN s.pend}
+FireSw(s) == [DoDisable(s) EXCEPT !.sw = 0]
+FirePend(s, t) == LET p == Head(s.pend)  s1 == [s EXCEPT !.pend = Tail(@)] IN
+                  IF p.k = "enable" THEN DoEnableNow(s1, t, p.ms, p.pp, p.hp) ELSE DoPulseNow(s1, t, p.ms, p.pp)
+Fire(s, t) == (IF s.sw = t THEN {FireSw(s)} ELSE {}) \cup (IF s.ho = t THEN {DoDisable(s)} ELSE {})
+              \cup (IF s.pend # <<>> /\ Head(s.pend).at = t THEN {FirePend(s, t)} ELSE {})
+RECURSIVE Drain(_, _)
+Drain(s, lim) == LET due == {x \in Timers(s) : x <= lim} IN
+                 IF due = {} THEN {s}
+                 ELSE UNION {Drain(f, lim) : f \in Fire(s, CHOOSE m \in due : \A y \in due : m <= y)}
+\* (\E over a singleton: TLC evaluates the record once)
+Commit(r, a) == \E s \in {r} : /\ on' = s.on /\ swOffAt' = s.sw /\ holdOffAt' = s.ho /\ busy' = s.busy /\ pend' = s.pend
+                                /\ out' = s.out /\ err' = s.err /\ act' = a
+\* ---- actions ----------------------------------------------------------------------------------------------------
+Call(mw) == nops < MaxOps /\ nops' = nops + 1 /\ (mw = NONE \/ Len(pend) < MaxPend) /\ UNCHANGED <<cfg, now>>
+Pulse(msA, ppA, mw) == Call(mw) /\ Commit(DoPulse(Cur, now, msA, ppA, mw), [op |-> "pulse", ms |-> msA, pp |-> ppA, mw |-> mw])
+Enable(msA, ppA, hpA, mw) ==
+    Call(mw) /\ Commit(DoEnable(Cur, now, msA, ppA, hpA, mw), [op |-> "enable", ms |-> msA, pp |-> ppA, hp |-> hpA, mw |-> mw])
+TimedEnable(teA, hpA, msA, ppA, mw) ==
+    Call(NONE) /\ Commit(DoTimedEnable(Cur, now, PMs(msA), PP(ppA), HP(hpA), TE(teA), mw),
+                         [op |-> "timed_enable", te |-> teA, hp |-> hpA, ms |-> msA, pp |-> ppA, mw |-> mw])
+Disable == Call(NONE) /\ Commit(DoDisable(Cur), [op |-> "disable"])
+\* a hardware rule (autofire, flipper ...) is installed with the given or the default settings; hold: a rule that holds
+Rule(msA, ppA, hpA, hold) ==
+    /\ Call(NONE)
+    /\ LET ms == PMs(msA)  pp == PP(ppA)  hp == HP(hpA) IN
+       Commit(IF ~PulseOK(ms, pp) \/ (hold /\ (~HoldOK(hp) \/ hp = 0)) THEN Refused(Cur)
+              ELSE Emit(Cur, <<"rule", ms, pp, IF hold THEN hp ELSE 0, 0>>),
+              [op |-> "rule", ms |-> msA, pp |-> ppA, hp |-> hpA, hold |-> hold])
+\* another coil on the same power supply pulses
+OtherPulse(ms) == /\ nops < MaxOps /\ nops' = nops + 1 /\ UNCHANGED <<cfg, now>>
+                  /\ Commit([Cur EXCEPT !.busy = PsuInstant(busy, now, ms)], [op |-> "other", ms |-> ms])
+\* the placeholder behind a default changes its value
+SetDef(w, v) == /\ nops < MaxOps /\ nops' = nops + 1 /\ UNCHANGED now
+                /\ \/ w = "pulse_ms" /\ cfg.dynP /\ cfg' = [cfg EXCEPT !.defPulseMs = v]
+                   \/ w = "timed_enable_ms" /\ cfg.dynT /\ cfg' = [cfg EXCEPT !.defTE = v]
+                /\ Commit(Cur, [op |-> "setdef", w |-> w, v |-> v])
+\* time passes; every timer that becomes due fires
+Adv(d) == /\ now + d <= MaxTime /\ now' = now + d
+          /\ \E r \in Drain(Cur, now + d) : Commit(r, [op |-> "adv", d |-> d])
+          /\ UNCHANGED <<cfg, nops>>
+Next == \/ \E ms \in MsVals, pp \in PowVals, mw \in MwVals : Pulse(ms, pp, mw)
+        \/ \E ms \in MsVals, pp \in PowVals, hp \in PowVals, mw \in MwVals : Enable(ms, pp, hp, mw)
+        \/ \E te \in TeVals, hp \in PowVals, ms \in MsVals, pp \in PowVals, mw \in MwVals : TimedEnable(te, hp, ms, pp, mw)
+        \/ \E ms \in MsVals, pp \in PowVals : Rule(ms, pp, NONE, FALSE)
+        \/ \E ms \in MsVals, pp \in PowVals, hp \in PowVals : Rule(ms, pp, hp, TRUE)
+        \/ \E ms \in OtherMs : OtherPulse(ms)
+        \/ \E w \in {"pulse_ms", "timed_enable_ms"}, v \in DefVals : SetDef(w, v)
         \/ Disable \/ \E d \in Steps : Adv(d)
 Spec == Init /\ [][Next]_vars
 \* ---- statement of C08 -------------------------------------------------------------------------------------
@@ -81,10 +143,18 @@ CmdOK(c) == \/ c[1] = "disable"
                /\ (c[1] = "pulse" => c[4] = 0)
                \* a held command needs a hold power inside the limit; the software-timed pulse holds at
                \* its pulse power and is judged as a pulse
-               /\ (c[1] \in {"enable", "timed_enable"} => c[4] >= 0 /\ (c[4] <= HPLimit \/ (c[2] = 0 /\ c[4] = c[3] /\ act'.op = "pulse")))
+               /\ (c[1] \in {"enable", "timed_enable"} =>
+                      c[4] >= 0 /\ (c[4] <= HPLimit \/ (c[2] = 0 /\ c[4] = c[3] /\ act'.op \in {"pulse", "adv"})))
+               /\ (c[1] = "rule" => c[4] >= 0 /\ c[4] <= HPLimit)
                /\ (c[1] = "timed_enable" => c[5] >= 0 /\ (cfg.maxHoldDur = 0 \/ c[5] <= cfg.maxHoldDur))
 Envelope == [][\A i \in DOMAIN out' : CmdOK(out'[i])]_vars
 RefuseNotCommand == err => out = <<>>
 SoftwarePulseEnds == on = "swpulse" => (swOffAt # 0 /\ now <= swOffAt)
-HoldWatchdog == (on = "hold" /\ cfg.maxHoldDur # 0) => (holdOffAt # 0 /\ now <= holdOffAt)
+HoldWatchdog == (on = "hold" /\ cfg.maxHoldDur # 0) => (holdOffAt # 0 /\ now <= holdOffAt /\ holdOffAt <= now + cfg.maxHoldDur)
+\* a postponed request was verified when it was made, waits in time order and never longer than the supply is busy
+PendSane == \A i \in DOMAIN pend : /\ pend[i].at > now /\ pend[i].at < busy
+                                   /\ MsOK(pend[i].ms) /\ PowOK(pend[i].pp) /\ (pend[i].k = "enable" => HoldOK(pend[i].hp) /\ pend[i].hp # 0)
+                                   /\ (i > 1 => pend[i - 1].at < pend[i].at)
+\* after every step nothing that is due is left waiting
+NothingOverdue == \A x \in Timers(Cur) : x > now
 =============================================================================
